@@ -251,6 +251,7 @@ class Recorder:
         self.events = []  # (kind, payload)
         self.app_msgs = []  # FIXMessage delivered to on_message
         self.raise_next = 0  # number of coming on_message calls that raise after recording
+        self.responder = None  # async callable(msg) run inside on_message
         self.auto_logon = True
         self.replay_filter = None  # callable(msg)->bool
         self.hook_gate = None  # async callable(name, *args) for the gate scheduler
@@ -269,6 +270,9 @@ class Recorder:
         self._ev("msg", msg)
         self.app_msgs.append(msg)
         await self._gate("on_message", msg)
+        if self.responder is not None:
+            # an application that answers from inside its handler (re-entrant use of send_msg)
+            await self.responder(msg)
         if self.raise_next > 0:
             # an application handler that fails AFTER it took the message
             self.raise_next -= 1
